@@ -12,12 +12,14 @@ Inductive case :=
 | CTab (id : nat) (a b r : dt)
 | CDiv (id : nat) (a b r : dt)
 | CAbs (id : nat) (a r : dt)
-| CEp (id : nat) (c : cfg) (t m : dt) (n : nat) (obs : list (string * option dt)).
+| CEp (id : nat) (c : cfg) (t m : dt) (n : nat) (obs : list (string * option dt))
+| CEpV (id : nat) (mc : bool) (c : cfg) (t m : dt) (n : nat) (obs : list (string * option dt)).
+(* CEpV: the same against an explicitly chosen code variant (used to validate a candidate repair on a patched worktree) *)
 
 Definition slot_match (model_slot obs_slot : string) : bool := String.eqb model_slot "*" || String.eqb model_slot obs_slot.
 
-Definition agree_ep (c : cfg) (t m : dt) (n : nat) (obs : list (string * option dt)) : bool :=
-  let model := out_dtypes (mkenv t m) (skeleton c) n in
+Definition agree_prog (p : prog) (t m : dt) (n : nat) (obs : list (string * option dt)) : bool :=
+  let model := out_dtypes (mkenv t m) p n in
   forallb (fun o => match snd o with
                     | None => false
                     | Some d => existsb (fun mo => slot_match (fst mo) (fst o) && dt_eqb (snd mo) d) model
@@ -29,7 +31,8 @@ Definition agree (c : case) : bool :=
   | CTab _ a b r => dt_eqb (promote a b) r
   | CDiv _ a b r => dt_eqb (to_float (promote a b)) r
   | CAbs _ a r => dt_eqb (real_of a) r
-  | CEp _ c t m n obs => agree_ep c t m n obs
+  | CEp _ c t m n obs => agree_prog (skeleton c) t m n obs
+  | CEpV _ mc c t m n obs => agree_prog (skeleton_v mc c) t m n obs
   end.
-Definition ident (c : case) : nat := match c with CTab i _ _ _ | CDiv i _ _ _ | CAbs i _ _ | CEp i _ _ _ _ _ => i end.
+Definition ident (c : case) : nat := match c with CTab i _ _ _ | CDiv i _ _ _ | CAbs i _ _ | CEp i _ _ _ _ _ | CEpV i _ _ _ _ _ _ => i end.
 Definition failing := failing_ids agree ident.
